@@ -338,3 +338,5 @@ def run(F, rep, tier):
                   "expanded %s" % n, sample={"dispatcher": n, "kinds": sorted(ks)})
     rep.floor("C04-R4", "assignment dispatchers", n_d, 5)
     rep.analysed = {"assign_compilers": sorted(nfc_forms), "kernels": n_k, "op_assign": {k: sorted(map(str, v)) for k, v in op_fns.items()}}
+    from rules.loopshape import assign_compiler_operand_roles
+    assign_compiler_operand_roles(F, rep, "C04-R6")
